@@ -705,6 +705,11 @@ pub trait Scenario: Sync {
     fn generate(&self, seed: u64, tier: Tier) -> Value;
     /// Execute the run described by `params`; `explicit` overrides the schedule policy.
     fn exec(&self, params: &Value, explicit: Option<Vec<u32>>) -> RunRes;
+    /// Parameters of a small throw-away run executed once per worker process before the measured runs (see `worker_main`);
+    /// `None` = the quick-tier run of a fixed seed.
+    fn warmup(&self) -> Option<Value> {
+        None
+    }
 }
 
 /// Worker main: reads the job from the environment and appends one JSON line per run to VERIF_OUT.
@@ -740,6 +745,14 @@ pub fn worker_main(registry: &[&'static dyn Scenario]) {
         writeln!(out, "{}", json!({"harness_error": format!("unknown scenario {name}")})).unwrap();
         return;
     };
+    // Warm-up: the first world built in a process initialises process-wide state (lazily created globals) that later
+    // executions find in place, and a few large runs come out with a different schedule when they are the first execution
+    // of the process than when they are not. A small throw-away run makes every measured run a "later" one, so that a
+    // result never depends on the run's position in a worker process (replays go through the same path).
+    {
+        let w = sc.warmup().unwrap_or_else(|| sc.generate(0x5eed, Tier::Quick));
+        let _ = sc.exec(&w, None);
+    }
     let tier = if job.get("tier").and_then(Value::as_str) == Some("thorough") {
         Tier::Thorough
     } else {
